@@ -148,3 +148,45 @@ func TestSelectWithTimeout(t *testing.T) {
 		}
 	}
 }
+
+// Two receivers parked on one channel must not keep waking each other: with a
+// sleeping sender the clock has to advance, and with none it is a deadlock.
+func TestTwoParkedReceivers(t *testing.T) {
+	for _, c := range cfgs() {
+		ch := MakeChan[int](1)
+		got := 0
+		rep := Run(c, []string{"r1", "r2", "sender"}, []func(){
+			func() { got += ch.Recv() },
+			func() { got += ch.Recv() },
+			func() {
+				Sleep(time.Second)
+				ch.Send(1)
+				Sleep(time.Second)
+				ch.Send(2)
+			},
+		})
+		if rep.Outcome != "ok" || got != 3 {
+			t.Fatalf("%+v: outcome %s got %d", c, rep.Outcome, got)
+		}
+		rep = Run(c, []string{"r1", "r2"}, []func(){
+			func() { ch.Recv() },
+			func() { ch.Recv() },
+		})
+		if rep.Outcome != "deadlock" {
+			t.Fatalf("%+v: outcome %s, want deadlock", c, rep.Outcome)
+		}
+	}
+}
+
+// A task that polls with Sleep for something that never happens hits the step budget, not the wall clock.
+func TestEndlessSleepPollingHitsStepBudget(t *testing.T) {
+	c := Config{Strategy: "np", MapPolicy: "sorted", StepBudget: 20000}
+	rep := Run(c, []string{"poller"}, []func(){func() {
+		for {
+			Sleep(time.Millisecond)
+		}
+	}})
+	if rep.Outcome != "step_budget" {
+		t.Fatalf("outcome %s, want step_budget", rep.Outcome)
+	}
+}
